@@ -194,6 +194,38 @@ func ruleHeaderAfterPreBlock(c *RC) *RuleResult {
 	}, nil)
 	ps := c.callSites("cb:NewPreBlockFromContext")
 	c.guardRule(r, ps, c.apiList, func(s *Site, sn *Snap) *Formula { return fRSR() }, nil)
+	// availability: the header constructors refuse (return nil) only when no proposal is recorded or, for the header
+	// under anti-MEV, the pre-block is not processed yet — otherwise arriving (pre)commits could not be verified
+	for _, k := range []struct {
+		cb   string
+		want func() *Formula
+	}{
+		{"cb:NewBlockFromContext", func() *Formula { return fOr(fNot(fRSR()), fAnd(fAMEV(), fNot(bl(fld("ctx.preBlockProcessed", false))))) }},
+		{"cb:NewPreBlockFromContext", func() *Formula { return fNot(fRSR()) }},
+	} {
+		seen := map[*FuncInfo]bool{}
+		for _, s := range c.callSites(k.cb) {
+			if seen[s.Fn] {
+				continue
+			}
+			seen[s.Fn] = true
+			r.Sites++
+			bad := ""
+			for _, e := range c.exitsOf(s.Fn) {
+				if len(e.Ret) != 1 || e.Ret[0].K != KNil {
+					continue
+				}
+				if res, cex := residual0(k.want(), e.F, func(*Atom) int { return ModeNone }); res.K != FTrue {
+					bad = "{" + strings.Join(e.Trail, "; ") + "} e.g. " + cexString(cex)
+				}
+			}
+			if bad == "" {
+				r.ok(s.Fn.Name + " returns nil only when no proposal is recorded (or the pre-block is pending)")
+			} else {
+				r.fail(s.Fn.Name+"/header-available", c.Prog.Pos(s.Fn.Decl), "the header/pre-header is refused in a state where arriving (pre)commits must be verifiable against it: "+bad)
+			}
+		}
+	}
 	for _, s := range c.callSites("cb:ProcessBlock") {
 		for _, sn := range s.Snaps {
 			r.Sites++
